@@ -1,4 +1,4 @@
-(*IMPORTS: Model.MatNorms Proofs.MatrixRefine Proofs.MatNorms Proofs.MatNormsR Legacy.C03Refuted*)
+(*IMPORTS: Model.MatNorms Proofs.MatrixExt Proofs.MatrixRefine Proofs.MatrixRefineRead Proofs.MatNorms Proofs.MatNormsR Legacy.C03Refuted*)
 (* ---------- histories: the flat model refines the list-of-rows specification (Proofs/MatrixRefine.v) ----------
    [smat] = list of rows + declared column count; [sstep] gives every editing operation by its textbook entry
    formula over rows and its documented range/shape condition; [absM] reads the rows out of the flat buffer.
@@ -62,6 +62,65 @@ Proof.
   - repeat constructor.
   - vm_compute. reflexivity.
 Qed.
+
+(* the value-returning operations against the same specification: same value (rows / tables by their textbook
+   formulas), matrix unchanged, same panic *)
+Theorem read_refines : forall (A : Arith) (m : matrix A) (o : @rop A), wf m -> rop_wf o ->
+  match mstep m (rop_mop o), sread (absM m) o with
+  | Ok (m', v), Ok w => m' = m /\ abs_val v = w
+  | Panic k, Panic k' => k = k'
+  | _, _ => False
+  end.
+Proof. exact (@MatrixRefineRead.read_refines). Qed.
+Check read_refines : forall (A : Arith) (m : matrix A) (o : @rop A), wf m -> rop_wf o ->
+  match mstep m (rop_mop o), sread (absM m) o with
+  | Ok (m', v), Ok w => m' = m /\ abs_val v = w
+  | Panic k, Panic k' => k = k'
+  | _, _ => False
+  end.
+Print Assumptions read_refines.
+
+(* every finite history interleaving the 18 editing and the 12 reading operations (a panicking operation is
+   skipped): final states correspond and the observed values / panics are the same list on both sides *)
+Theorem hist_refines : forall (A : Arith) (ops : list (@hop A)) (m : matrix A), wf m -> Forall hop_wf ops ->
+  wf (fst (mhist m ops)) /\
+  absM (fst (mhist m ops)) = fst (shist (absM m) ops) /\
+  snd (mhist m ops) = snd (shist (absM m) ops).
+Proof. exact (@hist_refines_lemma). Qed.
+Check hist_refines : forall (A : Arith) (ops : list (@hop A)) (m : matrix A), wf m -> Forall hop_wf ops ->
+  wf (fst (mhist m ops)) /\
+  absM (fst (mhist m ops)) = fst (shist (absM m) ops) /\
+  snd (mhist m ops) = snd (shist (absM m) ops).
+Print Assumptions hist_refines.
+Example hist_refines_nonvacuous :
+  wf (mkM (A:=AQ) [q 1 1; q 2 1; q 3 1; q 4 1; q 5 1; q 6 1] 2 3) /\
+  Forall hop_wf [inr (RMul (mkM (A:=AQ) (repeat (q 1 2) 15) 3 5)); inl (ETransposeInPlace (A:=AQ)); inr (RGetCol (A:=AQ) 1); inr (RGetCol (A:=AQ) 2)].
+Proof. split; [reflexivity|]. repeat constructor. Qed.
+
+(* ---------- consequences: a well-formed matrix is its shape and entries (so the derived PartialEq on the raw
+   buffers is equality of shape and entries); transposing twice is the identity on every shape; M * I = M ---------- *)
+Theorem matrix_ext : forall (A : Arith) (a b : matrix A), wf a -> wf b -> rows a = rows b -> cols a = cols b ->
+  (forall i j, i < rows a -> j < cols a -> entry a i j = entry b i j) -> a = b.
+Proof. exact (@wf_ext). Qed.
+Check matrix_ext : forall (A : Arith) (a b : matrix A), wf a -> wf b -> rows a = rows b -> cols a = cols b ->
+  (forall i j, i < rows a -> j < cols a -> entry a i j = entry b i j) -> a = b.
+Print Assumptions matrix_ext.
+
+Theorem transpose_involutive : forall (A : Arith) (m : matrix A), wf m ->
+  exists t, transpose_in_place m = Ok t /\ transpose_in_place t = Ok m.
+Proof. exact (@MatrixExt.transpose_involutive). Qed.
+Check transpose_involutive : forall (A : Arith) (m : matrix A), wf m ->
+  exists t, transpose_in_place m = Ok t /\ transpose_in_place t = Ok m.
+Print Assumptions transpose_involutive.
+
+Theorem mat_mul_eye_r : forall (A : Arith), RingLaws A -> forall m : matrix A, wf m ->
+  exists e, eye (cols m) = Ok e /\ mat_mul m e = Ok m.
+Proof. exact (@MatrixExt.mat_mul_eye_r). Qed.
+Check mat_mul_eye_r : forall (A : Arith), RingLaws A -> forall m : matrix A, wf m ->
+  exists e, eye (cols m) = Ok e /\ mat_mul m e = Ok m.
+Print Assumptions mat_mul_eye_r.
+Example mat_mul_eye_r_nonvacuous : RingLaws AQ /\ wf (mkM (A:=AQ) [q 1 1; q 2 1; q 3 1; q 4 1; q 5 1; q 6 1] 2 3).
+Proof. split; [|reflexivity]. constructor. exact (F_R AQ_field). Qed.
 
 (* ---------- norms (functions.rs) = their textbook definitions ----------
    over any arithmetic whose comparison satisfies the two order laws [OrdLaws] (irreflexive; a < b and c <= a
